@@ -21,9 +21,10 @@
         operation leaves the state untouched (C08_refused_unchanged); an internal failure in
         the middle of `push_chips` leaves the python object half-updated (pot reduced, bets
         not yet increased), and the ledger is indeed false there — see the recorded finding F12.
-    (b) bet collection is not executed once the pots are frozen.  This is a control-flow
-        fact of the phase machine (C07); it is not proved here, it is *checked* on every
-        step of every trace of the correspondence run (driver line `A frozen-collect`).
+    (b) no bet collection is pending once the pots are frozen (`bet_collection_status` is
+        false whenever `_pots` is set).  This is a control-flow fact of the phase machine
+        (C07); it is not proved here, it is *checked* on every step of every trace of the
+        correspondence run (driver line `A frozen-collect`).
 -/
 import PK.Proofs.LedgerStep
 namespace PK
@@ -35,9 +36,9 @@ variable {cfg : Config} {env : Env}
 def C01_step_full (cfg : Config) (env : Env) : Prop :=
   CfgOk cfg → ∀ m : M, Ledger cfg m.st → Ledger cfg (step cfg env m).st
 
-/-- hypothesis (b): no bet collection once the pots are frozen -/
+/-- hypothesis (b): no bet collection is pending once the pots are frozen -/
 def NoCollectWhenFrozen (m : M) : Prop :=
-  m.st.pots_.isSome = true → ∀ rest, m.ctl ≠ Ctl.opCollect :: rest
+  m.st.pots_.isSome = true → m.st.betCollection = false
 
 theorem startingStacks_nonneg (hc : CfgOk cfg) (i : Nat) : 0 ≤ getI cfg.startingStacks i := by
   have := hc.valid
@@ -97,11 +98,17 @@ theorem C01_step (hc : CfgOk cfg) (m : M) (h : Ledger cfg m.st)
     | opRunout c i => exact step_opRunout m h c i rest hctl
     | endCollect => exact step_endCollect m h rest hctl
     | opCollect =>
-      have hfz : m.st.pots_ = none := by
-        cases hp : m.st.pots_ with
-        | none => rfl
-        | some ps => exact absurd hctl (hb (by simp [hp]) rest)
-      exact step_opCollect m h hfz rest hctl
+      by_cases hbc : m.st.betCollection = true
+      · have hfz : m.st.pots_ = none := by
+          cases hp : m.st.pots_ with
+          | none => rfl
+          | some ps => have := hb (by simp [hp]); rw [this] at hbc; cases hbc
+        exact step_opCollect m h hfz rest hctl
+      · -- no collection pending: the verifier refuses and nothing changes
+        unfold step; rw [hctl]; simp only []
+        have : m.st.verifyBetCollection = .error .valueError := by
+          simp [State.verifyBetCollection, hbc]
+        rw [this]; exact h
     | opPush => exact step_opPush m h rest hctl ha
     | beginPush =>
       unfold step at ha ⊢; rw [hctl] at ha ⊢; simp only [] at ha ⊢
